@@ -111,6 +111,9 @@ def run(out: common.Outcome, explore: int = 0) -> None:
                                  "Eval vm_compute in (1%nat, idx (fun d => inF_b d && wf d) ds).\n")
         l = common.parse_nat_list(o, "1") if okc else None
         not_in_f = ["certification failed: " + o[-300:]] if l is None else [trecs[i]["id"] for i in l]
+    # beyond the letter of F: a loop (single event, two events, or only a fork) as the FIRST element of an outer loop body that
+    # can also be by-passed; frozen pool harness/pool/Y.jsonl (36 shapes), always all of them
+    recs = recs + L.load_extra_pool("Y")
     recs = recs + [r for r in L.load_corpus_pool() if has_loop(r["d"])]      # the loop cases of the corpus
     variants = (0, 4) if quick else (0, 1, 4, 5)
     items = []
